@@ -46,3 +46,47 @@ Proof.
     change (last (x :: y :: l) d) with (last (y :: l) d).
     cbn [nth]. apply IH. cbn in *. lia.
 Qed.
+
+Lemma nth_map_seq {A} (f : nat -> A) n s i d : i < n -> nth i (map f (seq s n)) d = f (s + i).
+Proof.
+  revert s i. induction n as [|n IH]; intros s i H; [lia|].
+  destruct i as [|i]; cbn [seq map nth].
+  - f_equal. lia.
+  - rewrite IH by lia. f_equal. lia.
+Qed.
+
+Lemma flat_map_ext_in {A B} (f g : A -> list B) l :
+  (forall a, In a l -> f a = g a) -> flat_map f l = flat_map g l.
+Proof.
+  induction l as [|x l IH]; intro H; [reflexivity|]. cbn [flat_map].
+  rewrite (H x) by (left; reflexivity). rewrite IH; [reflexivity|].
+  intros y Hy. apply H. right. exact Hy.
+Qed.
+
+From Coq Require Import Permutation.
+
+Lemma flat_map_app_perm {A B} (f g : A -> list B) l :
+  Permutation (flat_map f l ++ flat_map g l) (flat_map (fun x => f x ++ g x) l).
+Proof.
+  induction l as [|x l IH]; [constructor|]. cbn [flat_map].
+  rewrite <- app_assoc.
+  apply Permutation_trans with (f x ++ g x ++ flat_map f l ++ flat_map g l).
+  - apply Permutation_app_head. rewrite !app_assoc. apply Permutation_app_tail.
+    apply Permutation_app_comm.
+  - rewrite <- app_assoc. do 2 apply Permutation_app_head. exact IH.
+Qed.
+
+Lemma flat_map_nil_fun {A B} (l : list A) : flat_map (fun _ : A => @nil B) l = [].
+Proof. induction l; [reflexivity|exact IHl]. Qed.
+
+Lemma flat_map_swap {A B C} (f : A -> B -> list C) la lb :
+  Permutation (flat_map (fun a => flat_map (f a) lb) la)
+              (flat_map (fun b => flat_map (fun a => f a b) la) lb).
+Proof.
+  induction la as [|a la IH].
+  - cbn [flat_map]. rewrite flat_map_nil_fun. constructor.
+  - cbn [flat_map].
+    apply Permutation_trans with (flat_map (f a) lb ++ flat_map (fun b => flat_map (fun a0 => f a0 b) la) lb).
+    + apply Permutation_app_head. exact IH.
+    + apply flat_map_app_perm.
+Qed.
